@@ -149,6 +149,8 @@ def judge(fn, cached=False, skip_own=False, module_tree=None, class_node=None,
         def isinstance_(it, node, args, kw):
             v, c = args
             what = getattr(c, "what", "")
+            if isinstance(c, AbsClsRef):
+                return isinstance(v, AbsNode) and issubclass(v.pycls, c.pycls)
             if what.endswith("Expression"):
                 return isinstance(v, AbsNode)
             if what.endswith("list"):
